@@ -255,7 +255,7 @@ func Strings() []Val {
 
 func timeVals() []time.Time {
 	fixed := time.FixedZone("X", 3*3600+1800)
-	return []time.Time{
+	out := []time.Time{
 		time.Date(2021, 1, 2, 3, 4, 5, 0, time.UTC),
 		time.Date(2021, 1, 2, 0, 0, 0, 0, time.UTC),
 		time.Date(1970, 1, 1, 12, 30, 45, 0, time.UTC),
@@ -270,9 +270,26 @@ func timeVals() []time.Time {
 		time.Date(2021, 6, 15, 10, 20, 30, 0, fixed),
 		{},
 	}
+	// the wire forms crossed: {time only (1970-01-01), date and time} x {no fraction, ms, us, ns} x {UTC, local}
+	for _, d := range [][3]int{{1970, 1, 1}, {2038, 1, 19}} {
+		for _, ns := range []int{0, 120000000, 123450000, 123456780, 1} {
+			for _, loc := range []*time.Location{time.UTC, time.Local} {
+				out = append(out, time.Date(d[0], time.Month(d[1]), d[2], 3, 14, 7, ns, loc))
+			}
+		}
+	}
+	return out
 }
 
 var timeClasses = []string{"utc-datetime", "utc-date", "utc-1970-time", "utc-1970-midnight", "ms", "us", "ns", "local-datetime", "local-date", "year1", "year9999", "fixedzone", "zero"}
+
+func timeClass(i int) string {
+	if i < len(timeClasses) {
+		return timeClasses[i]
+	}
+	i -= len(timeClasses)
+	return []string{"1970-time", "datetime"}[i/10] + []string{"", "+ms", "+us", "+ns", "+1ns"}[i%10/2] + []string{"-utc", "-local"}[i%2]
+}
 
 // ExtremeTimes are dates outside four-digit years.
 func ExtremeTimes() []Val {
@@ -327,7 +344,7 @@ func Leaves() []Gen {
 	add("big.Rat", reflect.TypeOf(big.Rat{}), []Val{val(*big.NewRat(1, 3), "1/3"), val(*big.NewRat(4, 2), "integral")})
 	var tv []Val
 	for i, x := range timeVals() {
-		tv = append(tv, val(x, timeClasses[i]))
+		tv = append(tv, val(x, timeClass(i)))
 	}
 	add("time.Time", reflect.TypeOf(time.Time{}), tv)
 	u1 := uuid.MustParse("01234567-89ab-cdef-0123-456789abcdef")
